@@ -59,6 +59,10 @@ func setupMinter(t *rapid.T, w *World, ctx sdk.Context, params mintertypes.Param
 	})
 }
 
+// lastMintEvent holds the attributes of the Mint event of the block mintBlock ran last (nil when the
+// block emitted none or several).
+var lastMintEvent map[string]string
+
 // mintBlock runs the real minter BeginBlocker at instant ns and returns (supply delta, event amount).
 func mintBlock(w *World, ctx sdk.Context, denom string, ns int64) (*big.Int, string, interface{}) {
 	bctx := ctx.WithBlockTime(nsTime(ns)).WithEventManager(sdk.NewEventManager())
@@ -71,7 +75,9 @@ func mintBlock(w *World, ctx sdk.Context, denom string, ns int64) (*big.Int, str
 	after := w.App.BankKeeper.GetSupply(bctx, denom).Amount
 	evAmt := ""
 	evs := typedEvents(bctx.EventManager().Events(), "chain4energy.c4echain.cfeminter.Mint")
+	lastMintEvent = nil
 	if len(evs) == 1 {
+		lastMintEvent = evs[0]
 		evAmt = unq(evs[0]["amount"])
 	} else if len(evs) > 1 {
 		evAmt = fmt.Sprintf("%d events", len(evs))
